@@ -137,3 +137,29 @@ def valgrind_batch(exe, runner, cases, d, tag, flags):
         bisect(batch[:h], sub + "a"); bisect(batch[h:], sub + "b")
     bisect(cases, "r")
     return found
+
+
+def exe_sample(tool, cases, d, ext, tag):
+    """the built EXECUTABLE on a sample of inputs (its main() has handlers of its own): returns [(case, what)] for runs that are
+    neither Accept (status 0, output file, nothing on stderr) nor Reject (status 1..255, diagnostic, no output file)"""
+    import subprocess, shutil
+    bad = []
+    wd = os.path.join(d, tag + ".exe"); os.makedirs(wd, exist_ok=True)
+    for c in cases:
+        src = os.path.join(wd, "in" + ext); outp = os.path.join(wd, "out.bin")
+        open(src, "wb").write(c['src'].encode('latin-1', 'replace'))
+        if os.path.exists(outp):
+            os.remove(outp)
+        try:
+            p = subprocess.run([tool, src, "-o", outp], cwd=wd, stdin=subprocess.DEVNULL, stdout=subprocess.PIPE, stderr=subprocess.PIPE, timeout=60)
+        except subprocess.TimeoutExpired:
+            bad.append((c, "did not terminate within 60 s")); continue
+        wrote = os.path.exists(outp)
+        if p.returncode == 0 and wrote and not p.stderr:
+            continue
+        if 1 <= p.returncode <= 255 and p.stderr and not wrote:
+            continue
+        what = ("killed by signal %d" % -p.returncode) if p.returncode < 0 else \
+               "status %d, output file %s, diagnostic %s" % (p.returncode, "written" if wrote else "absent", "printed" if p.stderr else "absent")
+        bad.append((c, what))
+    return bad
